@@ -334,7 +334,7 @@ def run(prop, tier, seed):
             try: PARSER.parse(text, models.File, auto_claim_comments=claim)
             except Exception: return None       # a variant this parser does not accept: not a sentence, skipped
             return c01(name, text, claim)
-        for name, text in corpus.eol_variants():
+        for name, text in corpus.eol_variants() + corpus.random_documents(seed, 150 if tier == 'quick' else 1500):
             for claim in (True, False): do((name, 'c01', claim), c01_variant, name, text, claim)
     for name, text in docs:
         if prop == 'C01':
@@ -365,7 +365,7 @@ def run(prop, tier, seed):
 
 
 def replay_case(case):
-    key = case['key']; name = key[0]; text = dict(corpus.documents() + corpus.eol_variants())[name]
+    key = case['key']; name = key[0]; text = corpus.lookup(name)
     CHECK_VALID[0] = case.get('prop') in ('C05', 'C14')
     fn = {'c01': c01, 'c04': c04, 'c11': c11, 'c20': c20, 'c20-children': c20_children, 'c20-ownership': c20_ownership}[key[1]]
     return fn(name, text, *key[2:])
